@@ -172,6 +172,29 @@ func genDPR(c *gal.Ctx) {
 			add("dpr_edge_heap_end", txtRegs{Dpr: dpr(ts[0], ts[1], true), HeapBase: limit - 0xE0000 + d, HeapSize: 0xE0000, SinitBase: 0, SinitSize: 0x10000})
 		}
 	}
+	// sums of 32-bit registers crossing 2^32 (the check must add them in 64 bits): on layouts that pass every
+	// other comparison, 2 MiB + heap + SINIT size lands at / around 2^32 and at the largest values; with
+	// SinitBase = 0 (SINIT containment skipped) the MLE-room comparison alone decides
+	zero32 := uint32(r.Intn(1)) // 0, not a constant: the subtractions below wrap on purpose
+	for _, ts := range [][2]uint32{{0x7B4, 4}, {0x800, 16}, {0x400, 3}, {0x1000, 255}} {
+		limit := ts[0] * MiB // wraps to 0 for 0x1000
+		size := ts[1] * MiB
+		for _, hs := range []uint32{0xE0000, 0x100000, size - 2*MiB} {
+			for _, d := range []uint32{0, 1, 0x1000, 0x10000, ^uint32(0), ^uint32(0xfff), size - 2*MiB - hs, size - 2*MiB - hs + 1} {
+				ss := zero32 - 2*MiB - hs + d // 2 MiB + hs + ss = 2^32 + d (mod 2^32)
+				add("dpr_wrap32_mle_room", txtRegs{Dpr: dpr(ts[0], ts[1], true), HeapBase: limit - hs, HeapSize: hs, SinitBase: 0, SinitSize: ss})
+			}
+			for _, ss := range []uint32{0xFFFFFFFF, 0xFFFFF000, 0xFFF00000, 0xFFE00000, 0xFFD00000, 0x80000000} {
+				add("dpr_wrap32_mle_room", txtRegs{Dpr: dpr(ts[0], ts[1], true), HeapBase: limit - hs, HeapSize: hs, SinitBase: 0, SinitSize: ss})
+				// SINIT base inside the DPR, its end beyond 2^32 (wrapping to a small address)
+				add("dpr_wrap32_sinit_end", txtRegs{Dpr: dpr(ts[0], ts[1], true), HeapBase: limit - hs, HeapSize: hs, SinitBase: limit - size, SinitSize: ss})
+				add("dpr_wrap32_sinit_end", txtRegs{Dpr: dpr(ts[0], ts[1], true), HeapBase: limit - hs, HeapSize: hs, SinitBase: limit - size, SinitSize: zero32 - (limit - size) + 0x10000})
+			}
+			// heap size so large that base + size crosses 2^32 and comes back to the limit modulo 2^32
+			add("dpr_wrap32_heap_end", txtRegs{Dpr: dpr(ts[0], ts[1], true), HeapBase: limit - hs, HeapSize: hs, SinitBase: 0, SinitSize: 0x10000})
+			add("dpr_wrap32_heap_end", txtRegs{Dpr: dpr(ts[0], ts[1], true), HeapBase: limit - size + 0x1000, HeapSize: 0xFFFFF000 + size, SinitBase: 0, SinitSize: 0})
+		}
+	}
 	// DPR size larger than its top address (the base would be negative)
 	add("dpr_size_gt_top", txtRegs{Dpr: dpr(1, 4, true), HeapBase: 0, HeapSize: 0x100000, SinitBase: 0, SinitSize: 0})
 	add("dpr_size_gt_top", txtRegs{Dpr: dpr(3, 4, true), HeapBase: 0x200000, HeapSize: 0x100000, SinitBase: 0, SinitSize: 0x10000})
